@@ -1006,6 +1006,21 @@ func replay(s *core.Shard, dir string) {
 }
 
 func witness(s *core.Shard, f core.Finding) (bool, string) {
+	var kind struct {
+		Kind string `json:"kind"`
+		ID   string `json:"id"`
+	}
+	if err := json.Unmarshal(f.Witness, &kind); err == nil && kind.Kind == "composed" {
+		hit, what := false, "held"
+		composedSink = func(attrs map[string]string, w string) {
+			if f.Matches(attrs) {
+				hit, what = true, w
+			}
+		}
+		runComposed(s, 0, kind.ID)
+		composedSink = nil
+		return hit, what
+	}
 	var sc scenario
 	if err := json.Unmarshal(f.Witness, &sc); err != nil {
 		return false, "bad witness: " + err.Error()
